@@ -73,6 +73,7 @@ PROPS = {
             J("gf2p16", "C11_rowreduce_concrete", bound="10 concrete structured matrices (swaps at every pivot, non-unit pivots, rank deficient) x fully symbolic n x k right-hand side, k 1..5 (narrower, equal, wider)", must_reach=["singular", "nonsingular"]),
             J("gf2p16", "C09_inplace_row", bound="the in-place row kernel contract scaleRow relies on: mulSlice(c, row, row), 0..35 elements"),
             J("gf2p16", "C11_times", bound="2x2 by 2x2 fully symbolic"),
+            J("gf2p16", "C11_fill", bound="NewMatrixFromFunction and NewIdentityMatrix for dimensions 1x1, 3x5, 33x31, 129x128, 130x127, 200x100 (every element, symbolic base value)"),
         ],
     ),
     "C07": dict(
@@ -128,7 +129,7 @@ PROPS = {
         assumptions=["the flag package runs as real SSA; FlagSet.PrintDefaults and fmt printing are no-ops; -cpuprofile (pprof, signal handler) is outside the claim",
                      "counterexamples of C20_main are replayed by building the par binary and running it on real files in a scratch directory"],
         jobs=[
-            J("cmd/par", "C20_main", replay="c20", no_native=True, bound="commands c/create/v/verify/r/repair in mixed case, bogus, none; index names s.par, s.par2, dir/s.par2, other / no extension, none; flags none, -g 2, an unknown flag before or after the command; 0..1 data files; library outcome nil / needed-but-impossible / other error; unusable and usable counts 0..2", must_reach=["usage", "verify", "repair"]),
+            J("cmd/par", "C20_main", replay="c20", no_native=True, bound="commands c/create/v/verify/r/repair in mixed case, bogus, none; index names s.par, s.par2, dir/s.par2, a.b.par2, a.b.par, d.x/s.par2, other / no extension, none; flags none, -g 2, an unknown flag before or after the command; 0..1 data files; library outcome nil / needed-but-impossible / other error; unusable and usable counts 0..2", must_reach=["usage", "verify", "repair"]),
             J("par2", "C01_repair_one", bound="1 file of 4/5/8 bytes, slice 4, 2 recovery blocks, goroutines 1..2, damage: intact, missing, one slice overwritten, 1..4 bytes inserted at the front, truncated at every length, 1..2 bytes appended, arbitrary content of length 0..len+1; double-check on/off", must_reach=["repaired"]),
             J("par2", "C20_par2_classify", bound="PAR2 library: every file missing and 0..1 of 1 recovery files left: Repair's error is classified as needed-but-impossible"),
         ],
@@ -143,6 +144,7 @@ PROPS = {
             J("par2", "C05_create_one", bound="1 file of 1,3,4,5,9 symbolic bytes, slice size 4, 1..3 recovery blocks, goroutines 1..2"),
             J("par2", "C05_create_two", bound="2 files (3,4),(4,5),(8,1) symbolic bytes, 1..2 blocks; both id orders"),
             J("par2", "C05_create_three", bound="3 files 5,4,3 bytes, 1/4/5 blocks (3 volume files), goroutines 1..2; all 6 id orders"),
+            J("par2", "C05_create_names", bound="2..3 files whose names have different lengths (not multiples of 4, sub-directories), symbolic contents of 1..3 bytes (both id orders), 1 block"),
             J("par2", "C05_sixteenk", bound="file lengths 16383, 16384, 16385"),
             J("par2", "C05_volume_layout", bound="1..40 recovery blocks"),
         ],
@@ -233,6 +235,7 @@ PROPS = {
             J("par2", "C17_order_three", tier="thorough", bound="3 files, every permutation of the input list, goroutines 1 vs 1..3", timeout=3000),
             J("par2", "C17_map_order", bound="2 files, 3 blocks, every iteration order of every map ranged over during the second run (symbolic permutation)"),
             J("par2", "C17_paths", bound="one file in a sub-directory: absolute vs relative, ./ and // spellings, working directory = set directory, its parent, a sibling, a sub-directory"),
+            J("par1", "C17_par1_paths", bound="PAR1 Create of 2 files (2 and 3 symbolic bytes), 2 volumes: 6 spellings incl. mixed relative/absolute, ./ and doubled separators, working directory / and /d, repeated run; input order fixed"),
         ],
     ),
     "C18": dict(
@@ -252,6 +255,7 @@ PROPS = {
         jobs=[
             J("par2", "C13_truncate_index", bound="index file cut at every length 0..len; data present or missing"),
             J("par2", "C13_truncate_volume", bound="volume file cut at every length"),
+            J("par2", "C13_big_truncate", bound="one protected file of 16388 concrete bytes, slice size 8192, 1 block; the data file cut to 0, 1, 8191, 8192, 16383, 16384, 16385, 16387 bytes"),
             J("par2", "C13_truncate_data", bound="data file of 9 bytes cut at every length"),
             J("par2", "C13_corrupt_byte", bound="any one byte of the index or volume file replaced by any other value"),
             J("par2", "C13_delete_subset", bound="every file of a 2-file, 2-block set present / deleted / emptied (3^5 states)"),
@@ -282,7 +286,7 @@ NOT_APPLICABLE = {}
 
 
 C20_CMDS = ["c", "create", "v", "verify", "r", "repair", "C", "Verify", "REPAIR", "bogus", ""]
-C20_FILES = ["s.par", "s.par2", "dir/s.par2", "s.txt", "s", ""]
+C20_FILES = ["s.par", "s.par2", "dir/s.par2", "s.txt", "s", "", "a.b.par2", "a.b.par", "d.x/s.par2"]
 
 
 def replay_c20(cex, scratch, repo, goenv):
@@ -304,10 +308,10 @@ def replay_c20(cex, scratch, repo, goenv):
         return dict(error="cannot build par: " + r.stdout[-300:])
     d = os.path.join(scratch, "c20dir")
     shutil.rmtree(d, ignore_errors=True)
-    os.makedirs(os.path.join(d, "dir"))
+    os.makedirs(os.path.join(d, "dir")); os.makedirs(os.path.join(d, "d.x"))
     run = lambda args: subprocess.run([par] + args, cwd=d, stdout=subprocess.PIPE, stderr=subprocess.STDOUT).returncode
     lower = {"c": "create", "create": "create", "C": "create", "v": "verify", "verify": "verify", "Verify": "verify", "r": "repair", "repair": "repair", "REPAIR": "repair"}.get(cmd)
-    is_par = fname in ("s.par", "s.par2", "dir/s.par2")
+    is_par = fname.endswith((".par", ".par2"))
     usage = flag_kind in (2, 3) or cmd == "" or lower is None or fname == "" or (lower == "create" and ndata == 0)
     argv = []
     if flag_kind == 1:
@@ -329,7 +333,7 @@ def replay_c20(cex, scratch, repo, goenv):
     elif not is_par:
         want = "failure"
     else:
-        sub = "dir/" if fname.startswith("dir/") else ""
+        sub = fname.rsplit("/", 1)[0] + "/" if "/" in fname else ""
         if lower == "create":
             if outcome == 0:
                 open(os.path.join(d, "data1"), "wb").write(b"hello")
@@ -341,7 +345,7 @@ def replay_c20(cex, scratch, repo, goenv):
                 open(os.path.join(d, sub + n), "wb").write(c)
             if run(["c", "-c", "2", fname, sub + "a", sub + "b"]) != 0:
                 return dict(error="cannot create the set")
-            folder = os.path.join(d, "dir") if sub else d
+            folder = os.path.join(d, sub.rstrip("/")) if sub else d
             stem = os.path.basename(fname).rsplit(".", 1)[0]
             vols = [os.path.join(folder, f) for f in os.listdir(folder) if f.startswith(stem + ".") and f != os.path.basename(fname)]
             if lower == "verify":
